@@ -7,7 +7,7 @@ import sys
 
 import numpy as np
 
-from . import common, compare, runner, scriptgen
+from . import common, compare, refsem, runner, scriptgen
 
 PID = "C01"
 LEVEL = "exploration"
@@ -174,6 +174,7 @@ def one_program(seed, i):
                 hit("input_nonfinite_skipped")
                 continue
             results = {"numpy": ("ok", ref)}
+            res["_maxmag"] = refsem.MAXMAG[0]
             # eager (one ORT session per op call, ~0.1 s each: limited to `eager_budget` inputs per program)
             if eager_budget > 0:
                 eager_budget -= 1
@@ -219,6 +220,7 @@ def one_program(seed, i):
     _minimise(res, p, seed, i, hit)
     res.pop("_ctx", None)
     res.pop("pending", None)
+    res.pop("_maxmag", None)
     return res
 
 
@@ -355,6 +357,13 @@ def _judge(results, p, res, hit, variant, k):
     if len(ws) >= 2 and all(cmp_outputs(forms[ws[0]], forms[w]) is None for w in ws[1:]) and len(ws) == len(differ):
         # all forms agree with each other and differ from numpy: the numpy reading is the odd one out
         kind, d = differ[ws[0]]
+        if kind == "value" and res.get("_maxmag", 0.0) > 1e4 and any(t in p.src for t in (" % ", "op.Floor(", "op.Mod(", "op.Round(", "op.Ceil(")):
+            # every execution form agrees with the others; only the numpy reading differs, on a program that applies a
+            # discontinuous operation after intermediate values beyond 1e4: a last-bit difference between numpy's float
+            # arithmetic and the runtime's (relative 6e-8 -> absolute 6e-4 and more) moves a value across a Floor / % boundary.
+            # Not evidence about the meaning of the program: inconclusive.
+            hit("numpy_odd_discontinuous_large_magnitude_inconclusive")
+            return
         res["viol"].append({"key": f"odd=numpy;kind={kind};feat={feat}",
                             "what": f"eager/graph agree with each other but not with the numpy reading [{variant} attrs, input {k}]: {d}",
                             "detail": {"src": p.src, "features": sorted(p.features), "input": k}})
